@@ -124,9 +124,9 @@ def shortTable (sorted : Array (List (Nat × Nat))) (shortSize : Nat) : List Nat
 def innerRecs (nodes : Array Node) : List InnerRec :=
   nodes.toList.filterMap (fun n => match n with | .inner r => some r | .leaf _ _ => none)
 
-/-- `creator.build` + `buildLeaves` -/
-def encode (t : Trie1) : SlimMsg :=
-  if t.nodes.size = 0 then {} else
+/-- `creator.build` + `buildLeaves` (also on a creator that holds no node: the legacy conversion
+    of an empty trie runs it; only `NodeTypeBM` is left nil then) -/
+def encodeCreator (t : Trie1) : SlimMsg :=
   let inners := innerRecs t.nodes
   let innerCnt := inners.length
   -- statistics over non-big inner nodes with at most maxShortSize labels
@@ -179,7 +179,7 @@ def encode (t : Trie1) : SlimMsg :=
     else none
   { bigInnerCnt := t.bigCnt
     shortSize := shortSize
-    nodeTypeBM := some (newBM innerIdx t.nodes.size "r64")
+    nodeTypeBM := if t.nodes.size = 0 then none else some (newBM innerIdx t.nodes.size "r64")
     inners := some (mk (ofMany (sub.map (·.1)) (sub.map (·.2.1))) "r128")
     shortBM := some (newBM shortIndex innerCnt "r64")
     shortTable := tbl
@@ -188,6 +188,10 @@ def encode (t : Trie1) : SlimMsg :=
     leaves := match t.elts with
       | some es => newVLenArray es
       | none => none }
+
+/-- `newSlim`'s result as a message: `&Slim{}` for the empty key list, else `creator.build` -/
+def encode (t : Trie1) : SlimMsg :=
+  if t.nodes.size = 0 then {} else encodeCreator t
 
 /-! ### reading: `getNode` and friends -/
 
